@@ -225,3 +225,138 @@ theorem evalC_spec (W : World D S F) (hit : F → F → Bool) (hx : ∀ a b, hit
 end
 
 end C06
+
+/-! ### shapes: nothing is truncated in the specification
+
+The numerics of Model/Cache.lean zip lists (`zipWith` stops at the shorter one) where numpy raises on
+a shape mismatch.  For a well-formed world — every signal block of a trial is as long as the trial's
+background array, i.e. "all arrays of one trial have that trial's number of events" — and a query
+with one value and one key per source, no zip ever meets lists of different length: the stateless
+evaluator returns one block per source and every block has the trial's number of events.  Together
+with `c06_transparent` the same holds for the cached evaluator after any history, also across data
+sets of different size. -/
+
+namespace C06
+open Cache
+
+section shapes
+variable {D S F : Type} [Add F] [Sub F] [Mul F] [Div F] [LT F] [DecidableLT F] [OfScientific F]
+
+/-- every block has length `n` -/
+def BlocksLen (n : Nat) (l : List (List F × List F)) : Prop := ∀ b ∈ l, b.1.length = n ∧ b.2.length = n
+
+theorem linCoefs_shape (W : World D S F) (d : D) (s : S) (n : Nat)
+    (hw : ∀ k g, (W.man d s k g).length = n) : ∀ (key : List F) (k : Nat),
+    (linCoefs key (key.map W.up) (manAll W d s k key) (manAll W d s k (key.map W.up))).length = key.length ∧
+    ∀ c ∈ linCoefs key (key.map W.up) (manAll W d s k key) (manAll W d s k (key.map W.up)),
+      c.1.length = n ∧ c.2.1.length = n := by
+  intro key
+  induction key with
+  | nil => intro k; simp [linCoefs, manAll]
+  | cons g gs ih =>
+    intro k
+    obtain ⟨h1, h2⟩ := ih (k + 1)
+    simp only [List.map_cons, manAll, linCoefs, List.length_cons, List.mem_cons]
+    refine ⟨by rw [h1], ?_⟩
+    rintro c (rfl | hc)
+    · simp [linCoef, hw]
+    · exact h2 c hc
+
+theorem parCoefs_shape (W : World D S F) (d : D) (s : S) (n : Nat)
+    (hw : ∀ k g, (W.man d s k g).length = n) : ∀ (key : List F) (k : Nat),
+    (parCoefs W.dx (manAll W d s k (key.map W.lo)) (manAll W d s k key)
+      (manAll W d s k (key.map W.up))).length = key.length ∧
+    ∀ c ∈ parCoefs W.dx (manAll W d s k (key.map W.lo)) (manAll W d s k key)
+      (manAll W d s k (key.map W.up)),
+      c.1.length = n ∧ c.2.1.length = n ∧ c.2.2.length = n := by
+  intro key
+  induction key with
+  | nil => intro k; simp [parCoefs, manAll]
+  | cons g gs ih =>
+    intro k
+    obtain ⟨h1, h2⟩ := ih (k + 1)
+    simp only [List.map_cons, manAll, parCoefs, List.length_cons, List.mem_cons]
+    refine ⟨by rw [h1], ?_⟩
+    rintro c (rfl | hc)
+    · simp [parCoef, hw]
+    · exact h2 c hc
+
+theorem linVals_shape (n : Nat) : ∀ (cs : List (Coef F)) (xs : List F), xs.length = cs.length →
+    (∀ c ∈ cs, c.1.length = n ∧ c.2.1.length = n) →
+    (linVals xs cs).length = cs.length ∧ BlocksLen n (linVals xs cs) := by
+  intro cs
+  induction cs with
+  | nil => intro xs _ _; cases xs <;> simp [linVals, BlocksLen]
+  | cons c cs ih =>
+    intro xs hl hc
+    cases xs with
+    | nil => simp at hl
+    | cons x xs =>
+      obtain ⟨h1, h2⟩ := ih xs (by simpa using hl) (fun c' hc' => hc c' (List.mem_cons_of_mem _ hc'))
+      have hc0 := hc c (List.mem_cons_self ..)
+      refine ⟨by simp [linVals, h1], ?_⟩
+      intro b hb
+      simp only [linVals, List.mem_cons] at hb
+      rcases hb with rfl | hb
+      · simp [linVal, hc0.1, hc0.2]
+      · exact h2 b hb
+
+theorem parVals_shape (n : Nat) : ∀ (cs : List (Coef F)) (xs ks : List F), xs.length = cs.length →
+    ks.length = cs.length → (∀ c ∈ cs, c.1.length = n ∧ c.2.1.length = n ∧ c.2.2.length = n) →
+    (parVals xs ks cs).length = cs.length ∧ BlocksLen n (parVals xs ks cs) := by
+  intro cs
+  induction cs with
+  | nil => intro xs ks _ _ _; cases xs <;> cases ks <;> simp [parVals, BlocksLen]
+  | cons c cs ih =>
+    intro xs ks hl hk hc
+    cases xs with
+    | nil => simp at hl
+    | cons x xs =>
+      cases ks with
+      | nil => simp at hk
+      | cons k ks =>
+        obtain ⟨h1, h2⟩ := ih xs ks (by simpa using hl) (by simpa using hk)
+          (fun c' hc' => hc c' (List.mem_cons_of_mem _ hc'))
+        have hc0 := hc c (List.mem_cons_self ..)
+        refine ⟨by simp [parVals, h1], ?_⟩
+        intro b hb
+        simp only [parVals, List.mem_cons] at hb
+        rcases hb with rfl | hb
+        · simp [parVal, hc0.1, hc0.2.1, hc0.2.2]
+        · exact h2 b hb
+
+/-- **no truncation**: one block per source, every block as long as the trial's background array -/
+theorem evalPure_shape (W : World D S F) (parabola : Bool) (d : D) (s : S) (q : Query F)
+    (hw : ∀ k g, (W.man d s k g).length = (W.bkg d s).length) (hq : q.x.length = q.key.length) :
+    (evalPure W parabola d s q).1.length = q.key.length ∧
+    (evalPure W parabola d s q).2.length = q.key.length ∧
+    (∀ b ∈ (evalPure W parabola d s q).1, b.length = (W.bkg d s).length) ∧
+    (∀ b ∈ (evalPure W parabola d s q).2, b.length = (W.bkg d s).length) := by
+  have key : ∃ sig : List (List F × List F), sig.length = q.key.length ∧
+      BlocksLen (W.bkg d s).length sig ∧
+      evalPure W parabola d s q =
+        (sig.map (fun vg => ratioOf vg.1 (W.bkg d s)), sig.map (fun vg => gradOf vg.2 (W.bkg d s))) := by
+    cases parabola with
+    | false =>
+      obtain ⟨c1, c2⟩ := linCoefs_shape W d s _ hw q.key 0
+      obtain ⟨v1, v2⟩ := linVals_shape (W.bkg d s).length _ q.x (by rw [hq, c1]) c2
+      exact ⟨_, by rw [v1, c1], v2, by simp [evalPure, finish, coefPure]⟩
+    | true =>
+      obtain ⟨c1, c2⟩ := parCoefs_shape W d s _ hw q.key 0
+      obtain ⟨v1, v2⟩ := parVals_shape (W.bkg d s).length _ q.x q.key (by rw [hq, c1]) (by rw [c1]) c2
+      exact ⟨_, by rw [v1, c1], v2, by simp [evalPure, finish, coefPure]⟩
+  obtain ⟨sig, h1, h2, h3⟩ := key
+  rw [h3]
+  refine ⟨by simp [h1], by simp [h1], ?_, ?_⟩
+  · intro b hb
+    simp only [List.mem_map] at hb
+    obtain ⟨vg, hvg, rfl⟩ := hb
+    simp [ratioOf, (h2 vg hvg).1]
+  · intro b hb
+    simp only [List.mem_map] at hb
+    obtain ⟨vg, hvg, rfl⟩ := hb
+    simp [gradOf, (h2 vg hvg).2]
+
+end shapes
+
+end C06
